@@ -77,7 +77,8 @@ Record consumer := { c_id : N; c_tag : string; c_queue : string; c_noack : bool;
                      c_status : cstatus; c_token : bool; c_own : qosw }.
 #[export] Instance eta_consumer : Settable _ := settable! Build_consumer <c_id; c_tag; c_queue; c_noack; c_status; c_token; c_own>.
 
-Record unacked := { u_tag : N; u_ctag : string; u_queue : string; u_msg : N }.
+Record unacked := { u_tag : N; u_ctag : string; u_queue : string; u_qid : N; u_msg : N }.
+(* u_qid: the queue object the message was delivered from (UnackedMessage.origin) *)
 
 Inductive chstatus := ChNew | ChOpen | ChClosing | ChClosed.
 Record channel := { ch_status : chstatus; ch_flow : bool; ch_dtag : N; ch_ctag : N; ch_confirm : bool;
@@ -98,11 +99,11 @@ Record msg := { m_mid : N; m_ex : string; m_key : string; m_mand : bool; m_pers 
 #[export] Instance eta_msg : Settable _ :=
   settable! Build_msg <m_mid; m_ex; m_key; m_mand; m_pers; m_has_header; m_hsize; m_size; m_body; m_dc; m_conf; m_expected; m_actual>.
 
-Record queue := { q_ready : list N; q_owner : N; q_excl : bool; q_autodel : bool; q_durable : bool; q_active : bool;
+Record queue := { q_id : N; q_ready : list N; q_owner : N; q_excl : bool; q_autodel : bool; q_durable : bool; q_active : bool;
                   q_consumers : list (N * N * string); q_cexcl : bool; q_wasconsumed : bool; q_rr : nat; q_call : bool;
                   q_len : Z; q_mready : Z; q_munacked : Z; q_mtotal : Z }.
 #[export] Instance eta_queue : Settable _ :=
-  settable! Build_queue <q_ready; q_owner; q_excl; q_autodel; q_durable; q_active; q_consumers; q_cexcl; q_wasconsumed; q_rr; q_call; q_len; q_mready; q_munacked; q_mtotal>.
+  settable! Build_queue <q_id; q_ready; q_owner; q_excl; q_autodel; q_durable; q_active; q_consumers; q_cexcl; q_wasconsumed; q_rr; q_call; q_len; q_mready; q_munacked; q_mtotal>.
 
 Inductive extype := ExDirect | ExFanout | ExTopic | ExHeaders.
 Record binding := { b_queue : string; b_key : string; b_args : list (string * string) }.
@@ -111,7 +112,7 @@ Record exchange := { e_type : extype; e_durable : bool; e_autodel : bool; e_inte
 #[export] Instance eta_exchange : Settable _ := settable! Build_exchange <e_type; e_durable; e_autodel; e_internal; e_system; e_bindings>.
 
 Record state := { conns : list (N * conn); queues : list (string * queue); exchanges : list (string * exchange);
-                  heap : list (N * msg); next_uid : N; next_cid : N;
+                  heap : list (N * msg); next_uid : N; next_cid : N; next_qid : N;
                   autodel : list string;
                   st_add : list (N * string);   (* persistent store: pending adds (uid, queue) *)
                   st_db : list (N * string);    (* persistent store: flushed keys *)
@@ -119,7 +120,7 @@ Record state := { conns : list (N * conn); queues : list (string * queue); excha
                   relay : list N;               (* confirmSyncCh *)
                   srv_ready : Z; srv_unacked : Z; srv_total : Z }.
 #[export] Instance eta_state : Settable _ :=
-  settable! Build_state <conns; queues; exchanges; heap; next_uid; next_cid; autodel; st_add; st_db; st_del; relay; srv_ready; srv_unacked; srv_total>.
+  settable! Build_state <conns; queues; exchanges; heap; next_uid; next_cid; next_qid; autodel; st_add; st_db; st_del; relay; srv_ready; srv_unacked; srv_total>.
 
 (* ------------------------------------------------------------------ *)
 (* frames the broker sends *)
@@ -431,16 +432,23 @@ Definition dec_qos_and_consume_next (cfg : config) (s : state) (c h : N) (u : un
   | None => s
   end.
 
+Definition origin_queue (s : state) (u : unacked) : option queue :=
+  match get_queue s (u_queue u) with
+  | Some qu => if q_id qu =? u_qid u then Some qu else None
+  | None => None
+  end.
+Definition qid_of (s : state) (qn : string) : N := match get_queue s qn with Some qu => q_id qu | None => 0 end.
+
 (* channel.ackMsg (without the map delete) *)
 Definition chan_ackmsg (s : state) (u : unacked) : state :=
-  match get_queue s (u_queue u) with
+  match origin_queue s u with
   | Some _ => queue_ackmsg s (u_queue u) (u_msg u)
-  | None => s
+  | None => s <| srv_total ::= Z.pred |> <| srv_unacked ::= Z.pred |>
   end.
 
 (* channel.rejectMsg (without the map delete) *)
 Definition chan_rejectmsg (s : state) (u : unacked) (requeue : bool) : state :=
-  match get_queue s (u_queue u) with
+  match origin_queue s u with
   | Some _ => if requeue then queue_requeue s (u_queue u) (u_msg u) else queue_ackmsg s (u_queue u) (u_msg u)
   | None => s <| srv_total ::= Z.pred |> <| srv_unacked ::= Z.pred |>
   end.
@@ -519,7 +527,8 @@ Definition vhost_delete_queue (delete_clears_active_first : bool) (s : state) (q
     if refused then
       ((if delete_clears_active_first then set_queue s qn (qu <| q_active := false |>) else s), [], None)
     else
-      let s := set_queue s qn (qu <| q_active := false |>) in
+      (* Queue.Delete clears `active` here; the queue leaves the table at the end of this same atomic step and
+         nothing in between reads the flag, so the model does not write it *)
       let '(s, evs) := fold_left (fun acc x => let '(s, evs) := acc in
                                                let '(s', e) := consumer_cancel s x in (s', evs ++ e))
                                  (q_consumers qu) (s, []) in
@@ -571,6 +580,11 @@ Record fixes := {
   fx_reopen_resets : bool;      (* F17 repaired: channel.open on a closed channel number starts from a fresh state *)
 }.
 
+Definition all_fixed : fixes :=
+  {| fx_direct_all := true; fx_redelivered := true; fx_delete_checks_first := true; fx_noack_total_once := true;
+     fx_get_count := true; fx_closeok_releases := true; fx_excl_owner := true; fx_clear_current := true; fx_not_impl := true;
+     fx_empty_body := true; fx_discard_closing := true; fx_nowait := true; fx_stage := true; fx_reopen_resets := true |}.
+
 Definition consumer_turn (cfg : config) (fx : fixes) (s : state) (c h : N) (tag : string) : state * list event :=
   match get_chan s c h with
   | None => (s, [])
@@ -596,18 +610,19 @@ Definition consumer_turn (cfg : config) (fx : fixes) (s : state) (c h : N) (tag 
             match ok with
             | None => (s, [])
             | Some _ =>
-              let s := upd_queue s (c_queue cm) (fun qu => qu <| q_ready := rest |> <| q_len ::= Z.pred |>) in
+              (* PopQos + the Ready metric (decremented a few statements later in the same turn) *)
+              let s := upd_queue s (c_queue cm) (fun qu => qu <| q_ready := rest |> <| q_len ::= Z.pred |> <| q_mready ::= Z.pred |>) in
               let s := if c_noack cm then queue_ackmsg s (c_queue cm) u else s in
               let dtag := match get_chan s c h with Some ch => ch_dtag ch + 1 | None => 0 end in
               let s := upd_chan s c h (fun ch => ch <| ch_dtag := dtag |>) in
               let s := if c_noack cm then s
-                       else upd_chan s c h (fun ch => ch <| ch_unacked ::= fun l => l ++ [{| u_tag := dtag; u_ctag := tag; u_queue := c_queue cm; u_msg := u |}] |>) in
+                       else upd_chan s c h (fun ch => ch <| ch_unacked ::= fun l => l ++ [{| u_tag := dtag; u_ctag := tag; u_queue := c_queue cm; u_qid := qid_of s (c_queue cm); u_msg := u |}] |>) in
               let s := if c_noack cm
                        then (if fx_noack_total_once fx
                              then upd_queue (s <| srv_unacked ::= Z.succ |>) (c_queue cm) (fun qu => qu <| q_munacked ::= Z.succ |>)
                              else upd_queue (s <| srv_total ::= Z.pred |>) (c_queue cm) (fun qu => qu <| q_mtotal ::= Z.pred |>))
                        else upd_queue (s <| srv_unacked ::= Z.succ |>) (c_queue cm) (fun qu => qu <| q_munacked ::= Z.succ |>) in
-              let s := upd_queue (s <| srv_ready ::= Z.pred |>) (c_queue cm) (fun qu => qu <| q_mready ::= Z.pred |>) in
+              let s := s <| srv_ready ::= Z.pred |> in
               let m := get_msg s u in
               let evs := match m with
                          | Some m => out1 c h (SDeliver tag dtag (redelivered_flag (fx_redelivered fx) (m_dc m)) (m_ex m) (m_key m))
@@ -719,8 +734,8 @@ Definition extype_eqb (a b : extype) : bool :=
 
 Definition has_prefix (p s : string) : bool := String.prefix p s.
 
-Definition new_queue (owner : N) (dur excl ad : bool) : queue :=
-  {| q_ready := []; q_owner := owner; q_excl := excl; q_autodel := ad; q_durable := dur; q_active := true;
+Definition new_queue (qid : N) (owner : N) (dur excl ad : bool) : queue :=
+  {| q_id := qid; q_ready := []; q_owner := owner; q_excl := excl; q_autodel := ad; q_durable := dur; q_active := true;
      q_consumers := []; q_cexcl := false; q_wasconsumed := false; q_rr := O; q_call := false;
      q_len := 0; q_mready := 0; q_munacked := 0; q_mtotal := 0 |}.
 
@@ -820,7 +835,7 @@ Definition handle_method (cfg : config) (fx : fixes) (s : state) (c h : N) (m : 
              then ok s (if fx_nowait fx && nowait then [] else out1 c h (SQDeclareOk name (Z.to_N (q_len qu) mod two32) (N.of_nat (List.length (q_consumers qu)))))
              else refuse s (ChanErr PreconditionFailed 50 10)
       | None =>
-        let s := set_queue s name (new_queue c dur excl ad) in
+        let s := set_queue (s <| next_qid ::= N.succ |>) name (new_queue (next_qid s) c dur excl ad) in
         let s := s <| exchanges ::= map (fun kv => if seqb (fst kv) ""%string then (fst kv, append_binding (snd kv) {| b_queue := name; b_key := name; b_args := [] |}) else kv) |> in
         ok s (if fx_nowait fx && nowait then [] else out1 c h (SQDeclareOk name 0 0))
       end
@@ -948,16 +963,16 @@ Definition handle_method (cfg : config) (fx : fixes) (s : state) (c h : N) (m : 
         match okr with
         | None => ok s (out1 c h SGetEmpty)
         | Some _ =>
-          let s := upd_queue s q (fun qu => qu <| q_ready := rest |> <| q_len ::= Z.pred |>) in
+          let s := upd_queue s q (fun qu => qu <| q_ready := rest |> <| q_len ::= Z.pred |> <| q_mready ::= Z.pred |>) in
           let dtag := match get_chan s c h with Some ch => ch_dtag ch + 1 | None => 0 end in
           let s := upd_chan s c h (fun ch => ch <| ch_dtag := dtag |>) in
           let s := if noack
                    then (if fx_noack_total_once fx
                          then upd_queue (queue_ackmsg s q u <| srv_unacked ::= Z.succ |>) q (fun qu => qu <| q_munacked ::= Z.succ |>)
                          else upd_queue (s <| srv_total ::= Z.pred |>) q (fun qu => qu <| q_mtotal ::= Z.pred |>))
-                   else upd_queue (upd_chan s c h (fun ch => ch <| ch_unacked ::= fun l => l ++ [{| u_tag := dtag; u_ctag := ""%string; u_queue := q; u_msg := u |}] |>)
+                   else upd_queue (upd_chan s c h (fun ch => ch <| ch_unacked ::= fun l => l ++ [{| u_tag := dtag; u_ctag := ""%string; u_queue := q; u_qid := qid_of s q; u_msg := u |}] |>)
                                     <| srv_unacked ::= Z.succ |>) q (fun qu => qu <| q_munacked ::= Z.succ |>) in
-          let s := upd_queue (s <| srv_ready ::= Z.pred |>) q (fun qu => qu <| q_mready ::= Z.pred |>) in
+          let s := s <| srv_ready ::= Z.pred |> in
           let evs := match get_msg s u with
                      | Some m => out1 c h (SGetOk dtag (if fx_redelivered fx then 0 <? m_dc m else false) (m_ex m) (m_key m)
                                                   (if fx_get_count fx then Z.to_N (q_len qu - 1) mod two32 else 1))
@@ -1152,7 +1167,7 @@ Definition init_exchanges (cfg : config) : list (string * exchange) :=
    ((if cfg_rabbit cfg then "amq.header"%string else "amq.headers"%string), sys ExHeaders); (""%string, sys ExDirect)].
 
 Definition init (cfg : config) : state :=
-  {| conns := []; queues := []; exchanges := init_exchanges cfg; heap := []; next_uid := 1; next_cid := 1; autodel := [];
+  {| conns := []; queues := []; exchanges := init_exchanges cfg; heap := []; next_uid := 1; next_cid := 1; next_qid := 1; autodel := [];
      st_add := []; st_db := []; st_del := []; relay := []; srv_ready := 0; srv_unacked := 0; srv_total := 0 |}.
 
 Fixpoint run (cfg : config) (fx : fixes) (s : state) (ls : list label) : state * list event :=
